@@ -1,6 +1,8 @@
 //! Conformance harness for minidump-writer: shared pieces of `mdw-drive` and `mdw-target`.
 pub mod dirops;
 pub mod dumprun;
+pub mod elfcases;
+pub mod elfgen;
 pub mod flood;
 pub mod imgops;
 pub mod maps;
